@@ -106,7 +106,21 @@ func build(r *hx.Rand, proto string, pre []int, seq []int, lockstep bool) Sessio
 		s.Steps = append(s.Steps, Step{Op: "sync"})
 	}
 	s.SlowStop = s.Ending == "sclose" && r.Bool()
+	asyncShare(r, &s)
 	return s
+}
+
+// asyncShare lets a third of the queries, mutations and subscriptions of a session resolve their
+// payload through apifu.Go / apifu.Batch (async.go).
+func asyncShare(r *hx.Rand, s *Session) {
+	for i := range s.Steps {
+		st := &s.Steps[i]
+		if st.Op == "frame" && st.F == "start" && st.Big == 0 && (st.Kind == "query" || st.Kind == "mutation" || st.Kind == "subscription") {
+			if k := r.Intn(6); k < 2 {
+				st.Async = k + 1
+			}
+		}
+	}
 }
 
 func enumerate(n int, f func(seq []int)) {
@@ -225,6 +239,7 @@ func randomSession(r *hx.Rand, maxLen int) Session {
 	} else if r.Chance(1, 2) {
 		s.Steps = append(s.Steps, Step{Op: "sync"})
 	}
+	asyncShare(r, &s)
 	return s
 }
 
@@ -246,6 +261,7 @@ func manySubs(r *hx.Rand, n int) Session {
 	if r.Bool() {
 		s.Steps = append(s.Steps, Step{Op: "ev", Src: r.Intn(n)})
 	}
+	asyncShare(r, &s)
 	return s
 }
 
@@ -257,6 +273,7 @@ func burst(r *hx.Rand, n int) Session {
 		k := hx.Pick(r, []string{"query", "query", "mutation", "subscription", "invalid"})
 		s.Steps = append(s.Steps, Step{Op: "frame", F: "start", ID: 10 + i, Kind: k})
 	}
+	asyncShare(r, &s)
 	return s
 }
 
@@ -301,6 +318,7 @@ func slowReader(r *hx.Rand, k int) Session {
 	}
 	add(Step{Op: "frame", F: "start", ID: id, Kind: "query"}) // a barrier: answered after everything before it
 	if k%3 == 2 {
+		asyncShare(r, &s)
 		return s // the connection ends while the server is stalled
 	}
 	add(Step{Op: "resume"})
@@ -309,6 +327,44 @@ func slowReader(r *hx.Rand, k int) Session {
 	}
 	if r.Bool() {
 		add(Step{Op: "ev", Src: 0}, Step{Op: "frame", F: "stop", ID: 1}, Step{Op: "sync"})
+	}
+	asyncShare(r, &s)
+	return s
+}
+
+// asyncStream: subscriptions whose event payloads are resolved with apifu.Go / apifu.Batch and whose
+// sources emit many events (api-fu re-uses one apiRequest for all events of a subscription).
+func asyncStream(r *hx.Rand, k int) Session {
+	s := Session{Proto: []string{"ws", "tws"}[k%2], Ending: endings[(k/4)%3], Await: true, IDSet: r.Intn(len(idSetNames))}
+	mode := 1 + (k/2)%2
+	add := func(st ...Step) { s.Steps = append(s.Steps, st...) }
+	add(Step{Op: "frame", F: "init-ok"}, Step{Op: "frame", F: "start", ID: 1, Kind: "subscription", Async: mode})
+	two := r.Bool()
+	if two {
+		add(Step{Op: "frame", F: "start", ID: 2, Kind: "subscription", Async: 3 - mode})
+	}
+	add(Step{Op: "sync"})
+	for i, n := 0, r.Range(3, 12); i < n; i++ {
+		add(Step{Op: "ev", Src: 0})
+		if two && r.Bool() {
+			add(Step{Op: "ev", Src: 1})
+		}
+		switch r.Intn(6) {
+		case 0:
+			add(Step{Op: "sync"})
+		case 1:
+			add(Step{Op: "frame", F: "start", ID: 10 + i, Kind: hx.Pick(r, []string{"query", "mutation"}), Async: r.Intn(3)})
+		case 2:
+			add(Step{Op: "frame", F: "ping"})
+		}
+	}
+	if r.Bool() {
+		add(Step{Op: "end", Src: 0})
+	} else {
+		add(Step{Op: "frame", F: "stop", ID: 1})
+	}
+	if r.Chance(3, 4) {
+		add(Step{Op: "sync"})
 	}
 	return s
 }
@@ -358,6 +414,10 @@ func generate(h *harness) {
 	}
 	for i := 0; i < run.Scale(12, 120); i++ {
 		push(burst(run.Rand.Fork(), run.Rand.Range(60, 260)))
+	}
+	flush()
+	for i, n := 0, run.Scale(48, 480); i < n; i++ {
+		push(asyncStream(run.Rand.Fork(), i))
 	}
 	flush()
 	// slow reader: few at a time, each holds ~30 MB in flight
